@@ -36,8 +36,26 @@ def handleTrickle (args impl : List String) : Option (String × String) :=
       pure (m, p)
   | _ => none
 
+/-- `c08.hbperiod <workers> <timeoutMs> <count> <n> …`: FlushTimeout far above 100 ms; the trace carries the ticks of the
+    harness's reference clock (`k`); the oracle: never more than 4 clock ticks without a heartbeat iteration, i.e. the
+    heartbeat period H of the staleness bound `timeout + H` does not grow with FlushTimeout -/
+def handleHb (args impl : List String) : Option (String × String) :=
+  match args with
+  | w :: _tmo :: cnt :: _ => do
+    let workers ← nat? w
+    let maxCount ← nat? cnt
+    let cfg : Cfg := { workers, maxCount, maxBytes := 0, timeout := logicalTimeout, enqueueLocked := true }
+    match parseTks (impl.length + 1) impl with
+    | none => pure ("bad-trace", "bad-impl")
+    | some tks =>
+      let m := renderReplay (replay cfg { st := init cfg } tks 0 [])
+      let p := if SpecC08.holds maxCount 0 tks && SpecC08.hbPeriodOk 4 tks then "ok" else "fail"
+      pure (m, p)
+  | _ => none
+
 def handle (cmd : String) (args impl : List String) : Option (String × String) :=
   if cmd = "c08.stopstress" then handleStress impl else
+  if cmd = "c08.hbperiod" then handleHb args impl else
   if cmd = "c08.trickle" then handleTrickle args impl else
   if cmd ≠ "c08.trace" then none else
   match args with
